@@ -208,10 +208,10 @@ def finish(report: Report, wall_s: float, seed: int, write_evidence=True, quiet=
         print(summary)
         for line in out:
             print(line)
+    if violations:
+        return 1  # a reported violation stands even if another obligation could not be analysed (its ANALYSIS-ERROR line is printed too)
     if unrec:
         return 2
-    if violations:
-        return 1
     return 0
 
 
